@@ -103,6 +103,13 @@ class SortFootnotes(Transform):
 
     def apply(self, **kwargs: t.Any) -> None:
         """Apply the transform."""
+        # a footnote label shares the docutils name space with explicit targets;
+        # on a clash docutils moves the name to ``dupnames``, restore it,
+        # since footnote resolution only depends on the footnote's own names
+        for footnote in self.document.footnotes + self.document.autofootnotes:
+            if not footnote["names"] and footnote["dupnames"]:
+                footnote["names"], footnote["dupnames"] = footnote["dupnames"], []
+
         if not getattr(self.document, "myst_footnote_sort", True):
             return
 
